@@ -38,11 +38,14 @@ def pOptsOf (a : List String) : POpts :=
   { lossy := a.getD 0 "0" = "1", exp := parseNatD (a.getD 1 "101"), dp := parseNatD (a.getD 2 "46"),
     nan := optBytes (a.getD 3 "-"), inf := optBytes (a.getD 4 "-"), infinity := optBytes (a.getD 5 "-") }
 
-def specPF (ty : String) (fmt : Format) (partial_ : Bool) (o : POpts) (input : List Nat) : String :=
+def specPF (feats : Features) (ty : String) (fmt : Format) (partial_ : Bool) (o : POpts) (input : List Nat) : String :=
   match Fmt.ofName ty with
   | none => "-"
   | some f =>
-    if isPlain fmt && !o.lossy then
+    -- the grammar oracle speaks about valid options only (invalid ones: error paths of the entry points, model column)
+    -- … and about formats the feature set supports (others: `InvalidRadix`-style errors, model column)
+    if isPlain fmt && !o.lossy && (optionsError o).isNone && isValidOptionsPunctuation feats fmt o.exp o.dp
+        && checkRadix feats fmt then
       let r := fmt.mantissaRadix
       let res := if partial_ then parseStd r fmt.exponentRadix o input else parseStdComplete r fmt.exponentRadix o input
       res.render f r fmt.exponentBase partial_
@@ -91,8 +94,8 @@ def specOf (feats : Features) (t : List String) : String :=
   | "pi", [ty, f, p, _nm, h] => specPI ty (fmtOf f) (p = "1") (unhexBytes h)
   | "dwi", ty :: v :: _ => specWI ty Format.standard feats (parseIntD v)
   | "wi", ty :: f :: v :: _ => specWI ty (fmtOf f) feats (parseIntD v)
-  | "dpf", [ty, p, h] => specPF ty Format.standard (p = "1") (pOptsOf defaultPOpts) (unhexBytes h)
-  | "pf", ty :: f :: p :: rest => specPF ty (fmtOf f) (p = "1") (pOptsOf (rest.take 6)) (unhexBytes (rest.getD 6 "_"))
+  | "dpf", [ty, p, h] => specPF feats ty Format.standard (p = "1") (pOptsOf defaultPOpts) (unhexBytes h)
+  | "pf", ty :: f :: p :: rest => specPF feats ty (fmtOf f) (p = "1") (pOptsOf (rest.take 6)) (unhexBytes (rest.getD 6 "_"))
   | "dwf", ty :: b :: _ =>
     if feats.compact then "-" else specWF ty Format.standard feats ((ofHex b).getD 0) (wOptsOf defaultWOpts)
   | "wf", ty :: f :: b :: rest =>
